@@ -272,12 +272,25 @@ func regStore(e expr.Expr, i instruction, w expr.Width) expr.Effect {
 	return expr.NewRegStore(e, expr.Key(num.String()), w)
 }
 
+// addrConst creates a constant of an address a in an address space of width w.
+//
+// Addresses wrap around at the end of the address space, so a is reduced to w
+// bytes. This matters for an address space narrower than model.Addr as any
+// address calculated relatively to an address of an instruction at the very
+// beginning or the very end of the address space does not fit w bytes.
+func addrConst(a model.Addr, w expr.Width) expr.Const {
+	if bits := w.Bits(); bits < 64 {
+		a &= model.Addr(1)<<bits - 1
+	}
+	return expr.NewConstUint(a, w)
+}
+
 func addrImmConst(t immType, i instruction, w expr.Width) expr.Const {
 	imm, ok := t.parseValue(i.value)
 	if !ok {
 		panic(fmt.Sprintf("immediate encoding %d has no value", t))
 	}
-	return expr.NewConstUint(addrAddImm(i.addr, imm), w)
+	return addrConst(addrAddImm(i.addr, imm), w)
 }
 
 func branchCmp(
@@ -287,7 +300,7 @@ func branchCmp(
 	w expr.Width,
 ) expr.Effect {
 	jumpTarget := addrImmConst(immTypeB, i, w)
-	nextInstr := expr.NewConstUint(i.addr+instructionLen, w)
+	nextInstr := addrConst(i.addr+instructionLen, w)
 
 	condTrue, condFalse := jumpTarget, nextInstr
 	if !branchIfTrue {
